@@ -1,17 +1,57 @@
 /-
   C06 — sequencing, choice and option combinators follow ordered-choice semantics.
-  INTERIM file.  Proved here (for every scanner, text, filter table):
-  * a failed left branch of `either` consumes nothing: the right branch is run
-    from the very lexer the left branch was given;
-  * `maybe` returns the lexer it was given when the wrapped parser fails;
-  * `filter_with` restores the filter it replaced when the wrapped parser succeeds.
-  The refinement theorem (`run` = `Spec.peg` on the raw token stream, for all
-  grammars of the family) is in progress; until then the full statement is
-  carried by the `peg` correspondence family + the reference evaluator as
-  oracle.  Recorded finding F27 is replayed by the check.
+
+  English.  Fix a scanner/filter table `R.E`, column metrics `m` and a text length
+  `len` such that the scanner honours its contract `ScanOK` (a produced token is
+  non-empty and ends inside the text; at or past the end nothing is produced) and
+  the filter table is the harness one (`PassOK`: `Spec.keeps` is defined with it).
+  `Abs lx s` relates a lexer `lx` to a state `s` of the reference PEG evaluator
+  `Spec.peg`: same filter; the raw tokens `s.rest` and the raw stream at the lexer's
+  scanner/cursor are equal once the leading tokens the filter rejects are dropped
+  (so in particular `s.view` is the filtered raw stream at the lexer, `Abs.view`);
+  a lookahead buffer, if present, holds exactly the first kept token; and `s.term`
+  says whether the scan chain from the lexer's position reaches the end of text.
+  A fresh lexer (with or without `with_filter`) is related to the whole raw stream
+  (`PegRefine.abs_new`, `abs_withFilter`) — the harness's initial state.
+
+  * `C06_next_is_pop`, `C06_peek_shows_pop`: the two primitive bridges — `Lexer::next`
+    delivers exactly what `PState.pop` delivers (same token, `token_span` = the raw
+    token's span, related states; `None` iff `pop = none`), and `peek` shows that
+    token and leaves a lexer related to the same state.
+  * `C06_partial` (PROVED): for every grammar of the fragment `pegCore` (primitives
+    `empty one any any_index seq seq_count pred end_of_text`, `left right both center
+    map discard either maybe require_if cond implies antecedent consequent
+    cond_implies`, `any`/`any_index` with a non-empty token list), every fuel `n`,
+    related `lx`/`s`, every context and world: if the model returns `Ok(v, lx')` then
+    the reference evaluator — with the same or any larger fuel — returns `ok v s'`
+    with `lx'` related to `s'` (same value, same remaining filtered stream, same
+    filter); if the model returns an error the reference fails; if the reference
+    runs out of fuel `n` so does the model with fuel `n`; the model never panics.
+  * `C06_fuel_accounting`: the converse fuel implication is false already for
+    `left(empty, empty)` with fuel 2 — the model of `left` spends one unit on the
+    inner `both`, the reference evaluator does not.  (An artefact of the two
+    evaluators' fuel accounting, not of the Rust code; this is why the fuel clause
+    of `C06_partial` is one-directional.)
+  * `ScanFinal` is not needed on this fragment: a lexer whose advance was refused
+    is never continued.
+  * `C06_statement` — the same for every grammar `Spec.supported` accepts (adding
+    `filter_with`, `unfiltered`, `sub`, captures, repetition; values compared up to
+    `normVal`, the normalisation of empty captured spans the oracle applies) — is FALSE of the code (recorded
+    finding F27: a temporary filter installed while nothing has been consumed skips
+    the rejected tokens eagerly): `C06_finding_F27` proves its negation on the
+    two-token text ` a`.
+  * The three interim theorems are kept.
+
+  Lean: `run` is the model of tephra-combinator (TephraModel.Run), `Spec.peg` the
+  reference evaluator (TephraModel.Spec.Peg); the driver checks model =
+  implementation observation by observation on generated cases.  Unbounded: any
+  scanner state, scanner function, text, metrics, grammar of the fragment, fuel.
 -/
 import TephraModel.Run
 import TephraModel.Spec.Peg
+import TephraProofs.PegRefine
+import TephraProofs.PegCapture
+import TephraProofs.LexOpsProof
 
 namespace Tephra.Props
 open Tephra
@@ -34,5 +74,144 @@ theorem C06_filter_with_restores (R : RunEnv) (n : Nat) (mask : Nat) (a : G) (lx
   refine ⟨_, ?_, rfl⟩
   simp [run, Lexer.setFilter] at h ⊢
   simp [h]
+
+/-! ### the refinement theorem -/
+
+open Tephra.Spec Tephra.PegRefine
+
+/-- `Lexer::next` is `PState.pop`. -/
+theorem C06_next_is_pop (E : LexEnv Nat Tok) (m : Metrics) (len : Nat) (ok : ScanOK E m len) (hp : PassOK E)
+    (lx : Lx) (s : PState) (a : Abs E m len lx s) :
+    ((lx.next E).1 = none ↔ s.pop = none) ∧
+    (∀ r s', s.pop = some (r, s') → ∃ lx', lx.next E = (some r.tok, lx') ∧ Abs E m len lx' s' ∧
+      lx'.tokenSpan = ⟨r.start, r.stop⟩) ∧
+    (∀ t lx', lx.next E = (some t, lx') → ∃ r s', s.pop = some (r, s') ∧ r.tok = t ∧ Abs E m len lx' s' ∧
+      lx'.tokenSpan = ⟨r.start, r.stop⟩) := by
+  rcases next_cases ok hp a with ⟨lx', hn, hpop⟩ | ⟨r, s', lx', hn, hpop, a', hs⟩
+  · refine ⟨by rw [hn, hpop]; simp, ?_, ?_⟩
+    · intro r s' h; rw [hpop] at h; cases h
+    · intro t lx'' h; rw [hn] at h; cases h
+  · refine ⟨by rw [hn, hpop]; simp, ?_, ?_⟩
+    · intro r2 s2 h
+      rw [hpop] at h; cases h
+      exact ⟨lx', hn, a', hs⟩
+    · intro t lx'' h
+      rw [hn] at h; cases h
+      exact ⟨r, s', hpop, rfl, a', hs⟩
+
+/-- `peek` shows the token `pop` would deliver and keeps the relation. -/
+theorem C06_peek_shows_pop (E : LexEnv Nat Tok) (m : Metrics) (len : Nat) (ok : ScanOK E m len)
+    (lx : Lx) (s : PState) (a : Abs E m len lx s) :
+    Abs E m len (lx.peek E).2 s ∧ (lx.peek E).1 = s.pop.map (·.1.tok) :=
+  peek_abs ok a
+
+/-- Side conditions under which the Rust does not panic by design (`assert!`s). -/
+def noAssert : G → Bool
+  | .any ks | .anyIndex ks => !ks.isEmpty
+  | .left a b | .right a b | .both a b | .either a b | .implies a b | .antecedent a b | .consequent a b =>
+    noAssert a && noAssert b
+  | .center a b c => noAssert a && noAssert b && noAssert c
+  | .map a | .discard a | .maybe a | .requireIf _ a | .cond _ a | .filterWith _ a | .unfiltered a | .sub a
+  | .spanned a | .text a | .someOf a => noAssert a
+  | .condImplies a _ b => noAssert a && noAssert b
+  | .repeat_ _ lo hi a => !hiBelow hi lo && noAssert a
+  | .repeatUntil _ lo hi st a => !hiBelow hi lo && noAssert st && noAssert a
+  | .intersperse _ lo hi a sp => !hiBelow hi lo && noAssert a && noAssert sp
+  | .intersperseUntil _ lo hi st a sp => !hiBelow hi lo && noAssert st && noAssert a && noAssert sp
+  | .intersperseDefault lo hi a _ => !hiBelow hi lo && noAssert a
+  | _ => true
+
+/-- FULL statement (false of the code because of F27, see `C06_finding_F27` — kept as a def):
+every grammar of the PEG family, filter-changing nodes included. -/
+def C06_statement : Prop :=
+  ∀ (R : RunEnv) (m : Metrics) (len : Nat), ScanOK R.E m len → ScanFinal R.E m → PassOK R.E →
+  ∀ (n : Nat) (g : G) (lx : Lx) (s : PState) (ctx : Ctx) (W : World),
+    Spec.supported g = true → noAssert g = true → Abs R.E m len lx s →
+    (∀ v lx', (run R n g lx ctx W).1 = .ok v lx' → ∀ k, 2 * n ≤ k →
+      ∃ v' s', peg R.text k g s = .ok v' s' ∧ normVal v = normVal v' ∧ Abs R.E m len lx' s') ∧
+    (∀ e, (run R n g lx ctx W).1 = .err e → ∀ k, 2 * n ≤ k → peg R.text k g s = .fail)
+
+open PegRefine.Witness in
+/-- F27: the full statement fails on the text ` a` (whitespace, then a letter), no filter
+installed, for `both(filter_with(ws-filter, empty), one(ws))`: the reference evaluator
+accepts (the whitespace token is still there after the filter is restored), the model
+returns an error (the whitespace was skipped eagerly while the filter was installed). -/
+theorem C06_finding_F27 : ¬ C06_statement := by
+  intro h
+  have h2 := (h RV mW 2 scanV_ok scanV_final passV 4 gV (Lexer.new 0 mW 2) sV ctxW World.init rfl rfl absV).2
+  have hr := runV ctxW World.init
+  have hp := pegV
+  cases hrun : (run RV 4 gV (Lexer.new 0 mW 2) ctxW World.init).1 with
+  | err e =>
+    rw [h2 e hrun 8 (by decide)] at hp
+    cases hp
+  | ok v lx => rw [hrun] at hr; cases hr
+  | fuel => rw [hrun] at hr; cases hr
+  | panic => rw [hrun] at hr; cases hr
+
+/-- PROVED: the refinement on the filter-preserving, repetition-free fragment. -/
+theorem C06_partial (R : RunEnv) (m : Metrics) (len : Nat) (ok : ScanOK R.E m len) (hp : PassOK R.E)
+    (n : Nat) (g : G) (lx : Lx) (s : PState) (ctx : Ctx) (W : World)
+    (hg : pegCore g = true) (a : Abs R.E m len lx s) :
+    (∀ v lx', (run R n g lx ctx W).1 = .ok v lx' → ∀ k, n ≤ k →
+      ∃ s', peg R.text k g s = .ok v s' ∧ Abs R.E m len lx' s') ∧
+    (∀ e, (run R n g lx ctx W).1 = .err e → ∀ k, n ≤ k → peg R.text k g s = .fail) ∧
+    (peg R.text n g s = .fuel → (run R n g lx ctx W).1 = .fuel) ∧
+    (run R n g lx ctx W).1 ≠ .panic := by
+  have key := fun k hk => core_sim ok hp n k hk g lx s ctx W hg a
+  refine ⟨?_, ?_, ?_, ?_⟩
+  · intro v lx' h k hk
+    have := key k hk
+    rw [h] at this
+    exact this
+  · intro e h k hk
+    have := key k hk
+    rw [h] at this
+    exact this
+  · intro h
+    have := key n (Nat.le_refl n)
+    rw [h] at this
+    cases hr : (run R n g lx ctx W).1 with
+    | fuel => rfl
+    | ok v lx' => rw [hr] at this; obtain ⟨_, h', _⟩ := this; cases h'
+    | err e => rw [hr] at this; cases this
+    | panic => rw [hr] at this; exact this.elim
+  · intro h
+    have := key n (Nat.le_refl n)
+    rw [h] at this
+    exact this
+
+/-- The converse fuel implication fails: with fuel 2 the model of `left(empty, empty)`
+is out of fuel while the reference evaluator succeeds. -/
+theorem C06_fuel_accounting (R : RunEnv) (lx : Lx) (ctx : Ctx) (W : World) (s : PState) :
+    pegCore (.left .empty .empty) = true ∧
+    (run R 2 (.left .empty .empty) lx ctx W).1 = .fuel ∧
+    peg R.text 2 (.left .empty .empty) s = .ok .unit s := by
+  refine ⟨rfl, ?_, ?_⟩
+  · simp [run]
+  · simp [peg, bindOk]
+
+/-- The relation on the filtered views, and the filters agree. -/
+theorem C06_abs_view (E : LexEnv Nat Tok) (m : Metrics) (len : Nat) (hp : PassOK E) (lx : Lx) (s : PState)
+    (a : Abs E m len lx s) :
+    s.filter = lx.filter ∧
+    s.view = (LexIter.rawAt E m len lx.scanner lx.cursor).filter (fun r => keeps s.filter r.tok) :=
+  ⟨a.filter, a.view hp⟩
+
+def okVal : RRes → Option Val
+  | .ok v _ => some v
+  | _ => none
+
+open PegRefine.Witness in
+set_option maxRecDepth 4000 in
+/-- Non-vacuity: on the text `a b` with the whitespace filter, a scanner satisfying the
+contract, the harness's initial lexer related to the whole raw stream, and a grammar
+of the fragment on which the model succeeds (so the first clause of `C06_partial` applies). -/
+example : ScanOK EW mW 3 ∧ PassOK EW ∧ Abs EW mW 3 lxW sW ∧ pegCore (.both (.one 0) (.one 1)) = true ∧
+    okVal (run RW 5 (.both (.one 0) (.one 1)) lxW ctxW World.init).1 =
+      some (.pair (.tok ⟨0, 0⟩) (.tok ⟨1, 0⟩)) := by
+  refine ⟨scanW_ok, passW, absW, rfl, ?_⟩
+  simp [okVal, run, lxW, ctxW, RW, EW, scanW, mW, Lexer.withFilter, Lexer.setFilter, Lexer.new,
+    Lexer.bufferNext, Lexer.bufferLoop, Lexer.next, Lexer.nextLoop, Lexer.filtered, passesMask, classOf, Pos.zero]
 
 end Tephra.Props
